@@ -16,6 +16,7 @@ import (
 	"os"
 	"sort"
 	"strconv"
+	"sync/atomic"
 	"strings"
 	"testing"
 	"time"
@@ -418,10 +419,12 @@ type vfLogWriter struct {
 	delayUS int
 	stallMS int // the first write stalls this long
 	n       int
+	writes  atomic.Int64
 	partial map[string]bool // result types compared on a subset of keys
 }
 
 func (w *vfLogWriter) Write(b []byte) (int, error) {
+	defer w.writes.Add(1)
 	w.n++
 	if w.n == 1 && w.stallMS > 0 {
 		time.Sleep(time.Duration(w.stallMS) * time.Millisecond)
@@ -570,6 +573,7 @@ type vfLogCfg struct {
 	StallMS int
 	Cancel  int // cancel after this many results were put (0: never; close the channel instead)
 	Kinds   []int
+	Chan    bool // the results travel through the real scan.ResultChan (two buffered stages) as in every command
 }
 
 func vfRunLogger(cfg vfLogCfg, seed int64) []map[string]interface{} {
@@ -589,9 +593,15 @@ func vfRunLogger(cfg vfLogCfg, seed int64) []map[string]interface{} {
 	ctx, cancel := context.WithCancel(context.Background())
 	defer cancel()
 	in := make(chan scan.Result, cfg.Cap)
+	var rc scan.ResultChan
+	var src <-chan scan.Result = in
+	if cfg.Chan {
+		rc = scan.NewResultChan(ctx, 1000)
+		src = rc.Chan()
+	}
 	ret := make(chan struct{})
 	go func() {
-		lg.LogResults(ctx, in)
+		lg.LogResults(ctx, src)
 		sink.log(map[string]interface{}{"ev": "Returned"})
 		close(ret)
 	}()
@@ -601,10 +611,20 @@ func vfRunLogger(cfg vfLogCfg, seed int64) []map[string]interface{} {
 		exp, _ := vfExpected(res)
 		sink.log(map[string]interface{}{"ev": "Put", "k": k, "id": res.ID(), "c": vfCanon([]int{}, exp)})
 		sent := false
-		select {
-		case in <- res:
-			sent = true
-		case <-time.After(20 * time.Second):
+		if cfg.Chan {
+			putDone := make(chan struct{})
+			go func() { rc.Put(res); close(putDone) }()
+			select {
+			case <-putDone:
+				sent = true
+			case <-time.After(20 * time.Second):
+			}
+		} else {
+			select {
+			case in <- res:
+				sent = true
+			case <-time.After(20 * time.Second):
+			}
 		}
 		if !sent {
 			sink.log(map[string]interface{}{"ev": "Hang", "what": "logger stopped consuming"})
@@ -618,7 +638,34 @@ func vfRunLogger(cfg vfLogCfg, seed int64) []map[string]interface{} {
 			break
 		}
 	}
-	if cfg.Cancel == 0 {
+	if cfg.Cancel == 0 && cfg.Chan {
+		// the result channel has no end of its own: wait until everything that was put has been written, then cancel as the runner does
+		want := int64(cfg.N)
+		if cfg.Unique {
+			want = -1
+		}
+		deadline := time.Now().Add(20 * time.Second)
+		last, lastAt := int64(-1), time.Now()
+		for time.Now().Before(deadline) {
+			n := w.writes.Load()
+			if n == want {
+				break
+			}
+			if n != last {
+				last, lastAt = n, time.Now()
+			} else if want < 0 && time.Since(lastAt) > time.Duration(cfg.StallMS+400)*time.Millisecond {
+				break
+			}
+			time.Sleep(2 * time.Millisecond)
+		}
+		if want >= 0 && w.writes.Load() != want {
+			sink.log(map[string]interface{}{"ev": "Hang", "what": fmt.Sprintf("%d of %d results written 20 s after the last Put", w.writes.Load(), want)})
+		}
+		sink.mu.Lock()
+		sink.logLocked(map[string]interface{}{"ev": "Cancel"})
+		cancel()
+		sink.mu.Unlock()
+	} else if cfg.Cancel == 0 {
 		sink.log(map[string]interface{}{"ev": "CloseIn"})
 		close(in)
 	}
@@ -657,6 +704,16 @@ func TestVfLogger(t *testing.T) {
 			c.Cap = 2
 			c.Hosts = 40
 			c.N = 30 + rnd.Intn(30)
+		}
+		out.write(vfRunLogger(c, seed+int64(runs)))
+		runs++
+	}
+	// through the real result channel: small histories, and more results than both of its stages hold behind a stalled writer
+	nvol, _ := strconv.Atoi(os.Getenv("VF_VOLUME"))
+	for k := 0; k < 4+nvol; k++ {
+		c := vfLogCfg{N: 1 + rnd.Intn(60), Hosts: 1 + rnd.Intn(12), Kinds: all, Unique: k%2 == 1, Chan: true}
+		if k >= 4 {
+			c = vfLogCfg{N: 2600 + rnd.Intn(800), Hosts: 5000, Kinds: []int{2}, Unique: k%2 == 1, Chan: true, StallMS: 300}
 		}
 		out.write(vfRunLogger(c, seed+int64(runs)))
 		runs++
